@@ -1,6 +1,308 @@
-(* Props/C04.v — TEMPORARY scaffold while the harness is brought up. *)
-From PV Require Import Spec.C04Spec Gen.C04Forms.
-Theorem C04_scaffold : gen_cu_v5_from = 5%Z.
-Proof. reflexivity. Qed.
-Print Assumptions C04_scaffold.
-Example C04_ex : True. Proof. exact I. Qed.
+(* Props/C04.v — property C04: debugging-information entries are decoded into exactly
+   the encoded tree.  Only statements, closed by [exact]; proofs live in Proofs/C04*.v.
+   Model: Model/C04Model.v (dwarfinfo.py, abbrevtable.py, die.py, compileunit.py, typeunit.py).
+   Spec: Spec/C04Spec.v, Spec/C04Sem.v (written from DWARF 2-5).  Tables: Gen/C04Forms.v
+   (regenerated from the live construct objects on every run). *)
+From Coq Require Import String.
+From PV Require Import Base.Outcome Base.Prim Spec.PrimSpec Spec.C04Desc Spec.C04Spec Spec.C04Sem Gen.C04Forms
+                       Model.C04Model Proofs.C04Forms Proofs.C04Header Proofs.C04Abbrev Proofs.C04Entry Proofs.C04Unit Proofs.C04Tree.
+From Coq Require Import ZArith List Bool.
+Import ListNotations.
+Open Scope string_scope.
+Open Scope list_scope.
+Open Scope Z_scope.
+
+(* ------------------------------------------------------------------ (1) the tables of the code are the standard's *)
+(* DESIGN 4.4 T1.  For each of the 32 configurations (byte order x DWARF32/64 x address size x
+   version 2..5) and each of the 45 form codes of DWARF 5 Table 7.6 (+ the two dwz forms) the live
+   Dwarf_dw_form dict has a parser under the standard's name, and that parser reads exactly the
+   operand encoding the standard prescribes for this version / format / address size
+   (finite: 32 x 45 entries, by vm_compute). *)
+Theorem C04_gen_forms_match_standard : forall (c : cfg) (code : Z) (name : string),
+  In c all_cfgs -> In (code, name) std_form_names ->
+  exists k, std_form_class c code = Some k /\
+            sfind (cfg_forms c) name = Some (class_desc (c_le c) k).
+Proof. exact gen_forms_match_standard. Qed.
+Print Assumptions C04_gen_forms_match_standard.
+
+(* the 32 configurations are all of them *)
+Theorem C04_all_cfgs_complete : forall c : cfg, cfg_ok c = true -> In c all_cfgs.
+Proof. exact cfg_ok_in. Qed.
+Print Assumptions C04_all_cfgs_complete.
+
+(* both number -> name dicts the entry parser consults (ENUM_DW_FORM through the abbreviation
+   declaration, DW_FORM_raw2name for DW_FORM_indirect) give every standard form code its standard name *)
+Theorem C04_gen_form_names_match_standard : forall (code : Z) (name : string),
+  In (code, name) std_form_names ->
+  zfind gen_dec_form code = Some name /\ zfind gen_form_raw2name code = Some name.
+Proof. exact gen_form_names_match_standard. Qed.
+Print Assumptions C04_gen_form_names_match_standard.
+
+(* the unit header structs (v2-4 CU, the six v5 unit kinds, v4 type unit) are the standard's layouts *)
+Theorem C04_gen_headers_match_standard : forall le is64 : bool,
+  gen_cu_header_lt5 le is64 = std_cu_lt5 le is64 /\
+  gen_cu_header_ge5 le is64 = std_cu_ge5 le is64 /\
+  gen_tu_header le is64 = std_tu le is64 /\
+  gen_cu_v5_from = 5 /\ gen_dec_ut_pass = false /\
+  (forall k, In k [1; 2; 3; 4; 5; 6] ->
+     zfind gen_dec_ut k = nth_error ["DW_UT_compile"; "DW_UT_type"; "DW_UT_partial"; "DW_UT_skeleton";
+                                     "DW_UT_split_compile"; "DW_UT_split_type"] (Z.to_nat (k - 1))).
+Proof. exact gen_headers_match_standard. Qed.
+Print Assumptions C04_gen_headers_match_standard.
+
+(* the abbreviation declaration struct: ULEB tag, 1-byte children flag, (ULEB name, ULEB form,
+   SLEB value iff implicit_const) until (0, 0) *)
+Theorem C04_gen_abbrev_shape :
+  gen_abbrev_tag_field = DUleb /\ gen_abbrev_children_field = DInt true 1 false /\
+  gen_abbrev_at_field = DUleb /\ gen_abbrev_form_field = DUleb /\ gen_abbrev_value_field = DSleb /\
+  gen_abbrev_value_forms = ["DW_FORM_implicit_const"] /\
+  gen_abbrev_stop = ("DW_AT_null", "DW_FORM_null") /\
+  gen_dec_tag_pass = true /\ gen_dec_at_pass = true /\ gen_dec_form_pass = true /\
+  gen_dec_children = [(0, "DW_CHILDREN_no"); (1, "DW_CHILDREN_yes")] /\
+  zfind gen_dec_at 0 = Some "DW_AT_null" /\ zfind gen_dec_form 0 = Some "DW_FORM_null".
+Proof. exact gen_abbrev_shape. Qed.
+Print Assumptions C04_gen_abbrev_shape.
+
+Theorem C04_gen_initlen_matches_prim :
+  gen_initlen_reserved_lo = INITLEN_RESERVED_LO /\ gen_initlen_escape = 0xffffffff.
+Proof. exact gen_initlen_matches_prim. Qed.
+Print Assumptions C04_gen_initlen_matches_prim.
+
+(* display names are one-to-one: two different attribute / tag / form numbers never show up under the
+   same dict key (so DIE.attributes, a dict keyed by name, loses no attribute of a well-formed entry) *)
+Theorem C04_gen_at_names_one_to_one : forall a b, enum_pass gen_dec_at a = enum_pass gen_dec_at b -> a = b.
+Proof. exact gen_at_names_one_to_one. Qed.
+Print Assumptions C04_gen_at_names_one_to_one.
+Theorem C04_gen_tag_names_one_to_one : forall a b, enum_pass gen_dec_tag a = enum_pass gen_dec_tag b -> a = b.
+Proof. exact gen_tag_names_one_to_one. Qed.
+Print Assumptions C04_gen_tag_names_one_to_one.
+Theorem C04_gen_form_names_one_to_one : forall a b, enum_pass gen_dec_form a = enum_pass gen_dec_form b -> a = b.
+Proof. exact gen_form_names_one_to_one. Qed.
+Print Assumptions C04_gen_form_names_one_to_one.
+
+(* ------------------------------------------------------------------ (2) unit headers and abbreviation tables *)
+(* DESIGN 4.4 T2.  DWARFInfo._parse_CU_at_offset over the header of the standard (v2-v4 compilation unit,
+   the six DWARF 5 unit kinds; DWARF32/64, both byte orders, address size 4/8), at any offset of the
+   section (pre), followed by anything (rest), with any declared length: the unit object carries exactly the
+   encoded parameters; the first entry is expected right after the header. *)
+Theorem C04_cu_header_roundtrip : forall (c : cfg) (k : ukind) (aoff len : Z) (pre rest : list Z),
+  header_wf c k aoff = true -> initial_length_wf len (c_is64 c) = true -> is_types4 k = false ->
+  parse_cu_at (c_le c)
+    (pre ++ initial_length_encode (c_le c) len (c_is64 c) ++ encode_header_rest c k aoff ++ rest) (zlen pre)
+  = Ok (mkuctx (c_le c) (c_is64 c) (addr_size_z c) (c_ver c) (zlen pre)
+               (zlen pre + initlen_size c + zlen (encode_header_rest c k aoff)) len
+               (hdr_unit_type k) (hdr_fields c k aoff)).
+Proof. exact cu_header_roundtrip. Qed.
+Print Assumptions C04_cu_header_roundtrip.
+
+(* the v4 type unit header of .debug_types (DWARFInfo._parse_TU_at_offset) *)
+Theorem C04_tu_header_roundtrip : forall (c : cfg) (sg toff aoff len : Z) (pre rest : list Z),
+  header_wf c (UKtypes4 sg toff) aoff = true -> initial_length_wf len (c_is64 c) = true ->
+  parse_tu_at (c_le c)
+    (pre ++ initial_length_encode (c_le c) len (c_is64 c) ++ encode_header_rest c (UKtypes4 sg toff) aoff ++ rest)
+    (zlen pre)
+  = Ok (expect_uctx c (UKtypes4 sg toff) aoff len (zlen pre)).
+Proof. exact tu_header_roundtrip. Qed.
+Print Assumptions C04_tu_header_roundtrip.
+
+(* AbbrevTable over the standard's encoding of a table (every LEB128 number in any valid encoding, minimal or
+   not; arbitrary distinct codes; unknown tag / attribute / form numbers; DW_FORM_implicit_const values) located
+   anywhere in .debug_abbrev: the dict holds exactly the declarations ... *)
+Theorem C04_abbrev_roundtrip : forall (t : atable) (sec : list Z) (off : Z) (tail : list Z),
+  atable_wf t = true -> 0 <= off -> (Z.to_nat off < length sec)%nat ->
+  skipn (Z.to_nat off) sec = encode_atable t ++ tail ->
+  get_abbrev_table sec off
+  = Ok (rev (map (fun d => (lv (d_code d),
+                            mkmdecl (enum_pass gen_dec_tag (lv (d_tag d))) (d_kids d)
+                                    (map (fun a => mkmspec (enum_pass gen_dec_at (lv (a_name a)))
+                                                           (enum_pass gen_dec_form (lv (a_form a)))
+                                                           (option_map lv (a_const a))) (d_attrs d))))
+                 (t_decls t))).
+Proof. exact abbrev_roundtrip. Qed.
+Print Assumptions C04_abbrev_roundtrip.
+
+(* ... and a lookup by code finds the declaration with that code *)
+Theorem C04_abbrev_lookup : forall (t : atable) (code : Z),
+  atable_wf t = true ->
+  zfind (expect_abbrevs t) code = option_map expect_mdecl (find_decl (t_decls t) code).
+Proof. exact abbrev_lookup. Qed.
+Print Assumptions C04_abbrev_lookup.
+
+(* ------------------------------------------------------------------ (3) entries *)
+(* every operand class of the standard except the two special ones is read back exactly, any following bytes *)
+Theorem C04_operand_roundtrip : forall c k op t,
+  operand_wf c k op = true -> plain_class k = true ->
+  parse_desc (class_desc (c_le c) k) (encode_operand c k op ++ t) = Ok (raw_of op, t).
+Proof. exact parse_desc_operand. Qed.
+Print Assumptions C04_operand_roundtrip.
+
+(* DW_FORM_indirect chains of any length: final form, raw value of the innermost operand, chain length *)
+Theorem C04_indirect_roundtrip : forall c f inner t,
+  cfg_ok c = true -> operand_wf c CIndirect (OpIndirect f inner) = true ->
+  resolve_indirect (cfg_forms c) (encode_operand c CIndirect (OpIndirect f inner) ++ t)
+  = Ok (dn_form (final_form 0x16 (OpIndirect f inner)), raw_of inner, chain_length (OpIndirect f inner), t).
+Proof. exact resolve_indirect_ok. Qed.
+Print Assumptions C04_indirect_roundtrip.
+
+(* the attribute loop of DIE._parse_DIE, without assuming distinct attribute names: DIE.attributes is the
+   dict obtained by assigning the expected attributes in order *)
+Theorem C04_attributes_dict : forall c, cfg_ok c = true ->
+  forall specs vals t pos acc,
+  forallb aspec_wf specs = true -> vals_wf c specs vals = true ->
+  parse_attrs (cfg_forms c) (map expect_mspec specs) (encode_vals c specs vals ++ t) pos acc
+  = Ok (fold_left attrs_set (expect_attrs dn_at dn_form c specs vals pos) acc,
+        pos + zlen (encode_vals c specs vals)).
+Proof. exact parse_attrs_fold. Qed.
+Print Assumptions C04_attributes_dict.
+
+(* one entry (null entries included) wherever it lies: offset, size, abbreviation code, tag, child flag and,
+   in order, each attribute's name, final form, raw value, offset and indirection length *)
+Theorem C04_entry_exact : forall c (abbrevs : list (Z * mdecl)) (ds : list adecl) (e : fentry)
+                                 (sec : list Z) (off : Z) (tail : list Z),
+  cfg_ok c = true ->
+  (forall code, zfind abbrevs code = option_map expect_mdecl (find_decl ds code)) ->
+  forallb adecl_wf ds = true ->
+  entry_wf c ds e = true ->
+  zskipn off sec = encode_entry c ds e ++ tail ->
+  parse_die (cfg_forms c) abbrevs sec off = Ok (expect_entry dn_tag dn_at dn_form c ds e off).
+Proof. exact parse_die_ok. Qed.
+Print Assumptions C04_entry_exact.
+
+(* DESIGN 4.4 T3 (dies_flat_exact).  A well-formed unit placed anywhere in its section: the header parses to
+   the unit's parameters, its abbreviation table (anywhere in .debug_abbrev) to its declarations, ... *)
+Theorem C04_unit_header_exact : forall (u : unit) (pre tail : list Z),
+  unit_wf u = true ->
+  (if is_types4 (u_kind u) then parse_tu_at else parse_cu_at)
+    (c_le (u_cfg u)) (pre ++ encode_unit u ++ tail) (zlen pre)
+  = Ok (expect_uctx (u_cfg u) (u_kind u) (u_abbrev_off u) (unit_length u) (zlen pre)).
+Proof. exact unit_header_exact. Qed.
+Print Assumptions C04_unit_header_exact.
+
+Theorem C04_unit_abbrevs_exact : forall (u : unit) (abbrev_sec sec : list Z) (off : Z),
+  unit_wf u = true -> table_at abbrev_sec u ->
+  open_unit abbrev_sec sec (expect_unit_ctx u off)
+  = Ok (mkmunit (expect_unit_ctx u off) sec (expect_abbrevs (u_table u))).
+Proof. exact unit_abbrevs_exact. Qed.
+Print Assumptions C04_unit_abbrevs_exact.
+
+(* ... and fetching the entry at each successive offset from cu_die_offset on yields exactly the pre-order
+   flattening of the encoded tree, one null entry closing each sibling list *)
+Theorem C04_dies_flat_exact : forall (u : unit) (pre tail : list Z),
+  unit_wf u = true ->
+  let sec := pre ++ encode_unit u ++ tail in
+  let M := expect_munit u sec (zlen pre) in
+  Forall (fun x => get_die M (x_off x) = Ok x)
+         (expect_entries dn_tag dn_at dn_form (u_cfg u) (t_decls (u_table u)) (unit_entries u)
+                         (zlen pre + header_size u)).
+Proof. exact unit_entries_exact. Qed.
+Print Assumptions C04_dies_flat_exact.
+
+(* ------------------------------------------------------------------ (4) tiling *)
+(* DESIGN 4.4 T4.  The expected (= decoded, by C04_dies_flat_exact) entries start at cu_die_offset, each one
+   starts where the previous one ends, each has positive size, and the last one ends at
+   cu_offset + unit_length + initial-length size = the end of the encoded unit *)
+Theorem C04_tiling : forall (u : unit) (off : Z),
+  unit_wf u = true ->
+  let U := expect_unit_ctx u off in
+  tiles (expect_dies (u_cfg u) (t_decls (u_table u)) (unit_entries u) (uc_die_off U))
+        (uc_die_off U) (uc_off U + uc_size U)
+  /\ uc_die_off U = off + header_size u
+  /\ uc_off U + uc_size U = off + zlen (encode_unit u).
+Proof. exact unit_tiling. Qed.
+Print Assumptions C04_tiling.
+
+(* ------------------------------------------------------------------ (5) children, terminators, iteration *)
+(* DESIGN 4.4 T5.  Hypothesis unit_sibs_ok: wherever an entry with children carries DW_AT_sibling, the attribute
+   (forms ref1/2/4/8/ref_udata relative to the unit, or ref_addr) designates the true next sibling / the null
+   entry closing the list (Spec.C04Sem.sibling_ok); absent attributes are always fine.
+   cu.iter_DIEs() = _iter_DIE_subtree(top DIE), which walks with iter_DIE_children (sibling shortcut or
+   recursive terminator search), yields exactly the pre-order list of C04_dies_flat_exact. *)
+Theorem C04_iter_DIEs_exact : forall (u : unit) (pre tail : list Z) (in_info : bool),
+  unit_wf u = true ->
+  let sec := pre ++ encode_unit u ++ tail in
+  unit_sibs_ok u in_info sec (zlen pre) = true ->
+  iter_DIEs (expect_munit u sec (zlen pre))
+  = Ok (expect_entries dn_tag dn_at dn_form (u_cfg u) (t_decls (u_table u)) (unit_entries u)
+                       (zlen pre + header_size u)).
+Proof. exact iter_DIEs_exact. Qed.
+Print Assumptions C04_iter_DIEs_exact.
+
+(* children_exact / terminators_exact: for EVERY node d (at offset off) of the encoded tree, DIE.iter_children()
+   returns exactly the root entries of the encoded children in order (kid_roots: each child starts where the
+   previous child's subtree ends), and the terminator recorded is the null entry right after the last child's
+   subtree; an entry whose abbreviation says DW_CHILDREN_no has no children and no terminator *)
+Theorem C04_children_exact : forall (u : unit) (pre tail : list Z) (in_info : bool) (d : die) (off : Z),
+  unit_wf u = true ->
+  let sec := pre ++ encode_unit u ++ tail in
+  let c := u_cfg u in let ds := t_decls (u_table u) in let M := expect_munit u sec (zlen pre) in
+  unit_sibs_ok u in_info sec (zlen pre) = true ->
+  node_at c ds (u_root u) (zlen pre + header_size u) d off ->
+  iter_children M (unit_fuel M) (root_entry c ds d off)
+  = Ok (if d_has_kids ds d then kid_roots c ds (die_kids d) (off + root_size c ds d) else [],
+        if d_has_kids ds d
+        then Some (null_entry c ds (die_term d) (off + root_size c ds d + kids_size c ds (die_kids d)))
+        else None).
+Proof. exact unit_children_exact. Qed.
+Print Assumptions C04_children_exact.
+
+(* ------------------------------------------------------------------ (7) several units *)
+(* DESIGN 4.4 T7.  Units of mixed version / format / address size / kind laid end to end: iter_CUs (iter_TUs
+   for .debug_types) finds each at the running sum of the encoded sizes and parses it with its own parameters *)
+Theorem C04_multi_unit_CUs : forall (le : bool) (us : list unit),
+  forallb unit_wf us = true -> units_in le false us = true ->
+  iter_CUs le (encode_section us) = Ok (expect_units us 0).
+Proof. exact iter_CUs_exact. Qed.
+Print Assumptions C04_multi_unit_CUs.
+
+Theorem C04_multi_unit_TUs : forall (le : bool) (us : list unit),
+  forallb unit_wf us = true -> units_in le true us = true ->
+  iter_TUs le (encode_section us) = Ok (expect_units us 0).
+Proof. exact iter_TUs_exact. Qed.
+Print Assumptions C04_multi_unit_TUs.
+
+(* ------------------------------------------------------------------ non-vacuity *)
+Example C04_ex_cfg : In (mkcfg false true true 5) all_cfgs /\ In (0x28, "DW_FORM_strx4") std_form_names /\
+  std_form_class (mkcfg false true true 5) 0x28 = Some (CFixed 4) /\
+  std_form_class (mkcfg false true true 2) 0x10 = Some (CFixed 8) /\
+  std_form_class (mkcfg false true false 3) 0x10 = Some (CFixed 8) /\
+  std_form_class (mkcfg false false true 3) 0x10 = Some (CFixed 4).
+Proof. vm_compute. intuition. Qed.
+
+(* a DWARF 5, 64-bit, big-endian skeleton unit: root with an inline string, an indirect(indirect(udata 300))
+   attribute with a non-minimal form code, an implicit_const child, padded null entry *)
+Definition ex_table : atable :=
+  mkatable [mkadecl (mklebn 1 [0x81; 0x00]) (mklebn 0x11 [0x11]) true
+                    [mkaspec (mklebn 0x03 [0x03]) (mklebn 0x08 [0x08]) None;
+                     mkaspec (mklebn 0x7777 [0xf7; 0xee; 0x01]) (mklebn 0x16 [0x16]) None] [0] [0x80; 0];
+            mkadecl (mklebn 300 [0xac; 0x02]) (mklebn 0x12345 [0xc5; 0xc6; 0x04]) false
+                    [mkaspec (mklebn 0x3e [0x3e]) (mklebn 0x21 [0x21]) (Some (mklebn (-5) [0x7b]))] [0] [0]]
+           [0].
+Definition ex_unit : unit :=
+  mkunit (mkcfg false true true 5) (UKskeleton 0x1122334455667788) 3 ex_table
+         (Node (mklebn 1 [1]) [OpStr [97; 98];
+                               OpIndirect (mklebn 0x16 [0x96; 0x00]) (OpIndirect (mklebn 0x0f [0x0f]) (OpLeb (mklebn 300 [0xac; 0x02])))]
+               [Node (mklebn 300 [0xac; 0x02]) [OpImplicit] [] []] [0x80; 0x00]).
+Example C04_ex_unit_wf :
+  unit_wf ex_unit = true /\ table_at_b ([9; 9; 9] ++ encode_atable ex_table ++ [7]) ex_unit = true /\
+  units_in false false [ex_unit; ex_unit] = true /\
+  List.length (unit_entries ex_unit) = 3%nat /\ zlen (encode_unit ex_unit) = 45.
+Proof. vm_compute. intuition. Qed.
+
+(* a unit whose root carries a DW_AT_sibling (ref_udata, non-minimal) pointing at its own end: the sibling
+   hypothesis is satisfiable with a present attribute, and the node relation reaches a grandchild *)
+Definition ex_table2 : atable :=
+  mkatable [mkadecl (mklebn 7 [7]) (mklebn 0x2e [0x2e]) true
+                    [mkaspec (mklebn 0x01 [0x01]) (mklebn 0x13 [0x13]) None] [0] [0];
+            mkadecl (mklebn 9 [9]) (mklebn 0x34 [0x34]) false
+                    [mkaspec (mklebn 0x02 [0x02]) (mklebn 0x0b [0x0b]) None] [0] [0]]
+           [0].
+Definition ex_unit2 : unit :=
+  mkunit (mkcfg true false false 4) UKlegacy 0 ex_table2
+         (Node (mklebn 7 [7]) [OpU 28]
+               [Node (mklebn 7 [7]) [OpU 24] [Node (mklebn 9 [9]) [OpU 5] [] []] [0];
+                Node (mklebn 9 [0x89; 0]) [OpU 6] [] []] [0]).
+Example C04_ex_siblings :
+  unit_wf ex_unit2 = true /\
+  unit_sibs_ok ex_unit2 true ([1; 2; 3] ++ encode_unit ex_unit2 ++ [4]) 3 = true /\
+  zlen (encode_unit ex_unit2) = 28.
+Proof. vm_compute. intuition. Qed.
